@@ -1360,6 +1360,10 @@ def history_cases(ctx, n):
         elif k < 0.68:      # path + generate(), content changes on disk, generate() again
             plan = [[_gen_edit(r)], [r.choice(ATTRS)], [r.choice([['touch-content'], ['path-none'], r.choice(INVALIDATE)])],
                     [r.choice([['regenerate'], _gen_edit(r), _complete_edit(r, 2)])]]
+        elif k < 0.72:      # generate(), then exports that race with a second generate() of the same object (another thread)
+            plan = [[_gen_edit(r)], [r.choice([r.choice(ATTRS), ['touch-content'], ['regenerate']])]]
+            for _ in range(r.randint(1, 3)):
+                plan.append([['regenerate-racing', r.choice(RACING)]] + ([['touch-content']] if r.random() < 0.25 else []))
         else:
             plan = []
             for _ in range(r.randint(1, 6)):
@@ -1367,7 +1371,10 @@ def history_cases(ctx, n):
                 plan.append([_inplace_edit(r) if pool == 'inplace' else _key_edit(r) if pool == 'keys' else r.choice(pool) if pool
                              else r.choice([_complete_edit(r, 2), _complete_edit(r, 2), _gen_edit(r)])
                              for _ in range(r.choice([1, 1, 2]))])
-        plan = plan[:r.randint(max(1, len(plan) - 2), len(plan))]
+        if 0.68 <= k < 0.72:
+            pass
+        else:
+            plan = plan[:r.randint(max(1, len(plan) - 2), len(plan))]
         if r.random() < 0.03:
             plan[r.randrange(len(plan))].append(r.choice(INVALIDATE_BIG))
         if r.random() < 0.15:
@@ -1523,6 +1530,60 @@ def _alias(md, spec):
     return "metainfo%s['x-alias'] = metainfo%s   # the same object" % ("['info']" if spec['dst'] == 'info' else '', ''.join('[%r]' % (q,) for q in p))
 
 
+# ---- an export racing with a re-hash: thread A is inside an export and its validate() call has returned; before A converts
+# the metainfo, thread B enters generate() for the same object (hashing the content again) and is held in its first progress
+# callback until A is done.  What A reports / writes must be what the object reports / writes before or after the re-hash
+# (with unchanged content the two are equal), or a refusal - never the hash or the bytes of a state the object is never in.
+RACING = ['infohash', 'b32', 'magnet_min', 'dump', 'write_stream']
+
+
+def _race(t, name):
+    import threading
+
+    def ws():
+        b = io.BytesIO()
+        t.write_stream(b, validate=True)
+        return b.getvalue().hex()
+    op = {'infohash': lambda: t.infohash, 'b32': lambda: t.infohash_base32.decode('ascii'),
+          'magnet_min': lambda: t.magnet(name=False, size=False, trackers=False).xt,
+          'dump': lambda: t.dump(validate=True).hex(), 'write_stream': ws}[name]
+    before = _attempt(op)
+    reached, release = threading.Event(), threading.Event()
+    state = {'started': False, 'b': None, 'rehash': None}
+
+    def hold(*a):
+        reached.set()
+        release.wait(30)
+
+    def rehash():
+        try:
+            t.generate(callback=hold, interval=0)
+            state['rehash'] = 'returned'
+        except BaseException as ex:  # noqa
+            state['rehash'] = 'raised ' + type(ex).__name__
+        finally:
+            reached.set()
+    real_validate = t.validate
+
+    def validate():
+        real_validate()
+        if not state['started']:
+            state['started'] = True
+            state['b'] = threading.Thread(target=rehash, daemon=True)
+            state['b'].start()
+            reached.wait(30)
+    t.validate = validate
+    try:
+        during = _attempt(op)
+    finally:
+        del t.validate
+        release.set()
+        if state['b'] is not None:
+            state['b'].join(60)
+    after = _attempt(op)
+    return {'export': name, 'before': before, 'during': during, 'after': after, 'raced': state['started'], 'rehash': state['rehash']}
+
+
 def _apply_edit(torf, t, e, docs, env):
     """one edit of the history; returns the object the history continues on"""
     import copy as _copy
@@ -1609,6 +1670,11 @@ def _apply_edit(torf, t, e, docs, env):
             # of pieces): C01/C18 matters, not exports - the edit is refused like any other edit the object refuses
             raise ValueError('regenerate skipped: piece length %r' % (pl,))
         t.generate()
+    elif op == 'regenerate-racing':
+        pl = t.metainfo['info'].get('piece length')
+        if not (type(pl) is int and pl >= 16384):
+            raise ValueError('regenerate skipped: piece length %r' % (pl,))
+        env.setdefault('racing', []).append(_race(t, e[1]))
     elif op == 'path-none':
         t.path = None
     elif op == 'touch-content':
@@ -1759,6 +1825,7 @@ def _run_history_chunk(cases):
                             so['segments'].append(segment(changed_by=name))
                         so['results'].append([name, r, len(so['segments']) - 1])
                     so['realised'] = env['log']
+                    so['racing'] = env.pop('racing', [])
                     if env.get('other'):
                         # the object the history forked from: nobody has touched it since
                         oth = env['other']
@@ -1841,6 +1908,9 @@ def _edit_py(e):
         return 't.path = <content %s>; t.generate()' % (a,)
     if op == 'regenerate':
         return 't.generate()'
+    if op == 'regenerate-racing':
+        return ('<thread A: %s - after its validate() call returned, thread B enters t.generate() and is held in its first '
+                'progress callback until A has its result>' % (a,))
     if op == 'path-none':
         return 't.path = None'
     if op == 'touch-content':
@@ -1964,6 +2034,25 @@ def evaluate_history(ctx, drv, cases):
                               {'dump(validate=False) of the original at the fork': _short(so_['other']['dump_nv_then'], 300),
                                'now': _short(so_['other']['dump_nv_now'], 300), 'its metainfo is unchanged': so_['other']['metainfo_same'],
                                'edits of the copy in this stage': so_.get('realised')}, finding_matchers=MATCHERS)
+                failed = True
+                break
+            raced_bad = None
+            for rc in (so_.get('racing') or []) if u['seg'] == 0 else []:
+                ctx.dist['history-race/%s/%s' % (rc['export'], 'validate() passed, then generate() entered in another thread'
+                                                 if rc['raced'] else 'no race: the export refused before / without validate()')] += 1
+                if rc['raced']:
+                    ctx.dist['history-race/re-hash ' + str(rc['rehash']) + ('; content unchanged' if rc['before'] == rc['after'] else '; content changed')] += 1
+                if 'ok' in rc['during'] and rc['during'] not in (rc['before'], rc['after']):
+                    raced_bad = rc
+                    break
+            if raced_bad:
+                ctx.violation('%s of a complete torrent, called while another thread hashes the same content again with generate(), '
+                              'returned a value the object has neither before nor after the re-hash [stage %d of the history]'
+                              % (raced_bad['export'], u['stage']), dict(case, failing_stage=u['stage']),
+                              'the reported infohash is the SHA-1 of the info bytes that are written: an export that does not raise '
+                              'reports / writes the info dictionary of the torrent (with unchanged content: the same before, during '
+                              'and after generate())',
+                              {k_: _short(v_, 300) for k_, v_ in raced_bad.items()}, finding_matchers=MATCHERS)
                 failed = True
                 break
             for a_ in (so_.get('realised') or []) if u['seg'] == 0 else []:
